@@ -38,6 +38,7 @@ class Path(object):
         self.cpconds = []      # (source over cp, truth)
         self.writes = {}       # position -> source
         self.advance = None    # source
+        self.outp = {}         # local copies of the output cursor: decl id -> offset (int) from where the cursor stood
         self.hexcalls = 0
         self.steps = 0
 
@@ -49,6 +50,7 @@ class Path(object):
         p.cpconds = list(self.cpconds)
         p.writes = dict(self.writes)
         p.advance = self.advance
+        p.outp = dict(self.outp)
         p.hexcalls = self.hexcalls
         p.steps = self.steps
         return p
@@ -231,7 +233,11 @@ class Decoder(object):
             if node.kind == 'decl':
                 d = node.decl
                 path = path.copy()
-                path.env[d['d']] = self.value_for(d.get('init'), path, d['d']) if 'init' in d else None
+                op0 = self.out_position(d['init'], path) if 'init' in d else None
+                if op0 is not None:
+                    path.outp[d['d']] = op0
+                else:
+                    path.env[d['d']] = self.value_for(d.get('init'), path, d['d']) if 'init' in d else None
             elif node.kind == 'stmt':
                 path = self.statement(node.expr, path.copy())
             if node.kind == 'branch':
@@ -247,6 +253,29 @@ class Decoder(object):
             for (y, _l) in self.cfg.succ[nid]:
                 work.append((y, path))
         return self.results
+
+    def concrete(self, e, path):
+        try:
+            s0 = self.src(e, path)
+        except _Unknown:
+            return None
+        if _vars_in(s0):
+            return None
+        return self.fn_of(s0, [])()
+
+    def out_position(self, e, path):
+        """offset (int) when e designates a position relative to the output cursor: *pp, local, local + n, *pp + n"""
+        e = strip_casts(e)
+        if e.get('k') == 'un' and e['op'] == '*' and strip_casts(e['e']).get('k') == 'ref' and strip_casts(e['e'])['d'] == self.outpp:
+            return 0
+        if e.get('k') == 'ref' and e.get('d') in path.outp:
+            return path.outp[e['d']]
+        if e.get('k') == 'bin' and e['op'] in ('+', '-'):
+            b = self.out_position(e['l'], path)
+            k = self.concrete(e['r'], path)
+            if b is not None and k is not None:
+                return b + (k if e['op'] == '+' else -k)
+        return None
 
     def value_for(self, e, path, target):
         if e is None:
@@ -275,6 +304,17 @@ class Decoder(object):
         e = strip_casts(e)
         if e.get('k') == 'bin' and e['op'] in ASSIGN_OPS:
             l = strip_casts(e['l'])
+            if l.get('k') == 'ref' and l.get('dk') in ('local', 'param') and e['op'] == '=':
+                op0 = self.out_position(e['r'], path)
+                if op0 is not None:
+                    path.outp[l['d']] = op0      # a local copy of the output cursor
+                    return path
+            if l.get('k') == 'ref' and l.get('d') in path.outp and e['op'] in ('+=', '-='):
+                k = self.concrete(e['r'], path)
+                if k is None:
+                    raise AnalysisBroken('TAB6: %s: output cursor moved by an unknown amount' % self.fn.where(e))
+                path.outp[l['d']] += k if e['op'] == '+=' else -k
+                return path
             if l.get('k') == 'ref' and l.get('dk') in ('local', 'param'):
                 if e['op'] == '=':
                     path.env[l['d']] = self.value_for(e['r'], path, l['d'])
@@ -297,8 +337,27 @@ class Decoder(object):
                     except _Unknown:
                         path.advance = '?'
                     return path
+                if e['op'] == '=':
+                    # *pp = local + n: the local stood `offset` bytes after the cursor
+                    op0 = self.out_position(e['r'], path)
+                    if op0 is not None:
+                        path.advance = repr(op0)
+                        return path
                 raise AnalysisBroken('TAB6: %s re-points the output cursor' % self.fn.where(e))
             acc = access(l)
+            if acc is not None and strip_casts(acc[0]).get('k') == 'ref' and strip_casts(acc[0]).get('d') in path.outp:
+                d0 = strip_casts(acc[0])['d']
+                idx = acc[1] if isinstance(acc[1], int) else self.concrete(acc[1], path)
+                if idx is None or path.advance is not None:
+                    raise AnalysisBroken('TAB6: %s: output position is not a known number' % self.fn.where(e))
+                try:
+                    path.writes[path.outp[d0] + idx] = self.src(e['r'], path)
+                except _Unknown:
+                    path.writes[path.outp[d0] + idx] = '?'
+                inner = strip_casts(l['e']) if l.get('k') == 'un' and l['op'] == '*' else None
+                if inner is not None and inner.get('k') == 'un' and inner['op'] == 'post++':
+                    path.outp[d0] += 1
+                return path
             if acc is not None:
                 b = strip_casts(acc[0])
                 if b.get('k') == 'un' and b['op'] == '*' and strip_casts(b['e']).get('k') == 'ref' and strip_casts(b['e'])['d'] == self.outpp:
